@@ -254,10 +254,35 @@ class Normalizer:
             if len(P) == 1 and not P[0].scal and not _is_num(P[0].coef, 1):
                 coef_out = 1 / P[0].coef          # inv(c M) = (1/c) inv(M)
                 P = [Mono(one, (), P[0].atoms, P[0].rows, P[0].cols)]
+            lead, trail = [], []
+            if len(P) == 1 and not P[0].scal:
+                # inv(A M B) = inv(B) inv(M) inv(A) for (square) invertible atoms at either end
+                atoms = list(P[0].atoms)
+                while atoms and atoms[0].invt and len(atoms) > 1:
+                    lead.append(atoms.pop(0))
+                while atoms and atoms[-1].invt and len(atoms) > 1:
+                    trail.insert(0, atoms.pop())
+                if (lead or trail) and not all(x.invt for x in atoms):
+                    P = [Mono(one, (), atoms, atoms[0].rows, atoms[-1].cols)]
+                else:
+                    lead, trail = [], []
+
+            def _inv_atoms(xs):
+                out = []
+                for x in reversed(xs):
+                    if x.diag:
+                        out.append(x.with_(exp=z3.simplify(-x.exp)))
+                    elif x.unit:
+                        out.append(x.adj(True, False))
+                    else:
+                        out.append(x.with_(i=not x.i))
+                return out
             key = self.pkey(P)
-            a = Atom("inv", key, t.rows, t.cols, real="real" in t.props, herm="herm" in t.props,
-                     diag="diag" in t.props, invt=True, inner=P)
-            return [Mono(coef_out, (), [a.adj(h, c)], r, cc)]
+            herm = "herm" in t.props or key == self.pkey(self.nf_poly(self.adj_poly(P, True, False)))
+            a = Atom("inv", key, P[0].cols, P[0].rows, real="real" in t.props or all(x.real for m_ in P for x in m_.atoms), herm=herm,
+                     diag="diag" in t.props and not (lead or trail), invt=True, inner=P)
+            mm = Mono(coef_out, (), _inv_atoms(trail) + [a] + _inv_atoms(lead), t.rows, t.cols)
+            return self.adj_poly([mm], h, c)
         if t.op == "dg":
             P = self.nf_poly(self.flat(t.args[0], False, c))
             out = []
@@ -510,7 +535,7 @@ class Normalizer:
                 return [self._with(m, l[:i] + [a] + l[i + 2:])], "J-idem"
             # inverses / unitaries
             if a.kind == b.kind and a.base == b.base and not a.diag and a.c == b.c:
-                if a.kind == "sym" and a.invt and a.h == b.h and a.i != b.i:
+                if a.kind in ("sym", "inv") and a.invt and a.h == b.h and a.i != b.i:
                     return [self._with(m, l[:i] + l[i + 2:])], "A*A^-1"
                 if a.unit and a.h != b.h and a.i == b.i:
                     return [self._with(m, l[:i] + l[i + 2:])], "U^H*U"
@@ -523,29 +548,31 @@ class Normalizer:
                         return [self._with(m, l[:i] + [a.with_(exp=z3.simplify(a.exp + b.exp))] + l[i + 2:])], "diag-merge"
                 elif str(ka) > str(kb):
                     return [self._with(m, l[:i] + [b, a] + l[i + 2:])], "diag-comm"
-        # opaque inverse next to its own argument (exponents of diagonal atoms must match exactly; a single diagonal
+        # opaque inverse next to its own argument: inv(P) P = P inv(P) = I, also for the adjoint / conjugate images
+        # (keys AND diagonal exponents of the neighbouring segment must match the argument exactly; a single diagonal
         # atom with a larger integer exponent loses one power)
-        def _exp1(xs):
-            return all((not x.diag) or _is_num(x.exp, 1) for x in xs)
+        def _same(xs, ys):
+            return len(xs) == len(ys) and all(x.key == y.key and ((not x.diag) or _eqz(x.exp, y.exp)) for x, y in zip(xs, ys))
+
+        def _eqz(a, b):
+            return z3.eq(z3.simplify(a), z3.simplify(b))
         for i, a in enumerate(l):
-            if a.kind == "inv" and not a.h and not a.c and len(a.inner) == 1 and not a.inner[0].scal:
-                inn = a.inner[0]
+            if a.kind == "inv" and len(a.inner) == 1 and not a.inner[0].scal:
+                inn = self.adj_poly(a.inner, a.h, a.c)[0] if (a.h or a.c) else a.inner[0]
                 k = len(inn.atoms)
-                ik = [x.key for x in inn.atoms]
-                if not k or not _exp1(inn.atoms):
+                if not k:
                     continue
                 for lo, hi in ((i + 1, i + 1 + k), (i - k, i)):
                     if lo < 0 or hi > n:
                         continue
                     seg = l[lo:hi]
-                    if [x.key for x in seg] != ik:
-                        continue
-                    if _exp1(seg):
+                    if _same(seg, list(inn.atoms)):
                         rest = l[:i] + l[hi:] if lo > i else l[:lo] + l[i + 1:]
                         mm = self._with(m, rest)
                         mm.coef = mm.coef / inn.coef
                         return [mm], "inv(P)*P"
-                    if k == 1 and seg[0].diag and self._nonneg_int(seg[0].exp) and z3.simplify(seg[0].exp).as_fraction() >= 1:
+                    if k == 1 and seg[0].key == inn.atoms[0].key and seg[0].diag and _is_num(inn.atoms[0].exp, 1) \
+                            and self._nonneg_int(seg[0].exp) and z3.simplify(seg[0].exp).as_fraction() >= 1:
                         red = seg[0].with_(exp=z3.simplify(seg[0].exp - 1))
                         rest = (l[:i] + [red] + l[hi:]) if lo > i else (l[:lo] + [red] + l[i + 1:])
                         mm = self._with(m, rest)
